@@ -103,12 +103,24 @@ def check_case(ctx, ds, calc, desc, insts):
         tol[:] = 1e-12
     else:
         # outside the sampled volumes the cubic fit of the axis lengths extrapolates (the model function is not in its class there)
-        inside = (v <= ds.volumes.max() * 0.98) & (v >= ds.volumes.min() * 1.02)
+        inside = (v <= ds.static_volumes.max() * 0.98) & (v >= ds.static_volumes.min() * 1.02)
         tol[~inside] = numpy.inf
     if numpy.any(numpy.abs(frac - want) > tol[:, None]):
         dev = numpy.where(numpy.isfinite(tol)[:, None], numpy.abs(frac - want), 0.0)
         i = int(numpy.argmax(numpy.max(dev, axis=1)))
         ctx.violation(f"axial strain fractions at volume #{i} are {frac[i].tolist()}, the files give {want[i].tolist()}", desc, {**sig, "clause": "strains"})
+        return
+    # (i-b) the static pressure is -dE/dV of the cubic finite-strain fit of the static energies (in-class: the BM3 form itself);
+    #       the code differentiates numerically on the volume grid, hence the loose tolerance (a wrong reference volume or a
+    #       wrong energy column is a shift of many GPa)
+    x = (ds.veq / v) ** (1.0 / 3.0)
+    p_exact = 1.5 * ds.k0 * (x ** 7 - x ** 5) * (1.0 + 0.75 * (ds.kp - 4.0) * (x ** 2 - 1.0))
+    pst = numpy.asarray(calc.static_p_array)
+    inner = slice(1, -1)
+    if numpy.max(numpy.abs(pst[inner] - p_exact[inner])) > 0.02 * numpy.max(numpy.abs(p_exact)) + 1e-7:
+        i = int(numpy.argmax(numpy.abs(pst[inner] - p_exact[inner]))) + 1
+        ctx.violation(f"static pressure at volume #{i} is {pst[i] * consts.RY_BOHR3_TO_GPA:.3f} GPa, -dE/dV of the static energies is "
+                      f"{p_exact[i] * consts.RY_BOHR3_TO_GPA:.3f} GPa", desc, {**sig, "clause": "static_pressure"})
         return
     # (ii) every modulus = static(model function of the table) + phonon(TLC-derived, with the strains the object reports)
     keys = [tuple(k.voigt) for k in calc.modulus_keys]
@@ -192,6 +204,8 @@ def perturb(ds, cls, rng):
         d2.axis_exp = s
     elif cls == "mass":
         d2.cellmass *= 1.1
+    elif cls == "vref":
+        d2.vref *= 0.93
     else:
         return None
     return d2
@@ -207,7 +221,7 @@ def taint(ctx, rng, datasets, prov, wd):
         except Exception:
             continue
         ref = {q: numpy.array(f(base), dtype=float) for q, f in OBS.items()}
-        for cls in ("table", "freq", "weights", "energy", "tgrid", "lattice", "mass"):
+        for cls in ("table", "freq", "weights", "energy", "tgrid", "lattice", "mass", "vref"):
             d2 = perturb(ds, cls, rng)
             if d2 is None:
                 continue
